@@ -112,7 +112,10 @@ def parse_bem(class_value=''):
     return BEMData(class_names, find_block_name(class_names))
 
 
-def get_block_name(ancestors: list, depth=0, context: dict=None, lookup={}):
+block_lookup = {}
+"BEM data of ancestor nodes; only valid while one abbreviation tree is transformed"
+
+def get_block_name(ancestors: list, depth=0, context: dict=None, lookup=block_lookup):
     """
     Returns block name for given `node` by `prefix`, which tells the depth of
     of parent node lookup
